@@ -65,10 +65,32 @@ Fixpoint obs_tree (fuel big : nat) (h : heap) (root : id) (lp : list (id * path)
       | _, _ => None
       end
   end.
-Definition observe (s : state) : option otree :=
-  let h := st_heap s in
+Definition observe_at (h : heap) (root : id) : option otree :=
   let big := S (S (length h)) in
-  obs_tree big big h (st_root s) (live big h (st_root s) []) (st_root s).
+  obs_tree big big h root (live big h root []) root.
+Definition observe (s : state) : option otree := observe_at (st_heap s) (st_root s).
+(* the node where get_location() of x's tree starts: up the recorded parents while `if self.parent:` holds *)
+Fixpoint top_of (fuel : nat) (h : heap) (x : id) : id :=
+  match fuel with
+  | O => x
+  | S f => match get h x with
+           | Some n => match parent n with
+                       | Some p => match get h p with Some np => if truthy np then top_of f h p else x | None => x end
+                       | None => x
+                       end
+           | None => x
+           end
+  end.
+(* the subtree below a held node m that is no longer in the program; positions are checked from the top of m's own tree *)
+(* the recorded position of a node without parent says nothing: not compared *)
+Definition blank_root (t : otree) : otree :=
+  match t with
+  | ON i cs => ON (mkO (o_rep i) (o_vol i) (o_wf i) (o_meas i) (o_dur i)
+                       (match o_par i with PNone => None | _ => o_pidx i end) (o_par i) (o_loc i)) cs
+  end.
+Definition observe_sub (h : heap) (m : id) : option otree :=
+  let big := S (S (length h)) in
+  option_map blank_root (obs_tree big big h (top_of big h m) (live big h m []) m).
 
 (* ---- comparison -------------------------------------------------------------------------------------------------- *)
 Definition path_eqb (a b : path) : bool := list_eqb Nat.eqb a b.
@@ -113,8 +135,12 @@ Definition okind_eqb (a b : okind) : bool :=
   end.
 
 Record sobs := mkS { s_out : okind; s_eq : option bool; s_tree : otree }.
+(* round 2: the program plus the trees below the nodes the user still holds after they dropped out of the program
+   (None: the held node is still in the program) *)
+Record fsobs := mkFS { fs_main : sobs; fs_held : list (option otree) }.
 Inductive case :=
 | CHist (init : tspec) (steps : list (op * sobs))
+| CForest (init : tspec) (steps : list (fop * fsobs))
 | CCrash.
 
 Definition model_eq (s : state) (o : op) : option bool :=
@@ -145,9 +171,40 @@ Fixpoint corr_steps (s : state) (steps : list (op * sobs)) : bool :=
       | _, _ => false
       end
   end.
+Definition fop_op (o : fop) : op := match o with FMain o' => o' | FAt _ o' => o' | FHold _ => ONop end.
+Definition opt_otree_eqb (a b : option otree) : bool :=
+  match a, b with Some x, Some y => otree_eqb x y | None, None => true | _, _ => false end.
+Definition observe_held (fs : fstate) : option (list (option otree)) :=
+  let s := f_main fs in
+  omap (fun m => if in_tree (st_heap s) (st_root s) m then Some None
+                 else match observe_sub (st_heap s) m with Some t => Some (Some t) | None => None end) (f_held fs).
+Definition fmodel_eq (fs fs' : fstate) (o : fop) : option bool :=
+  match o with
+  | FMain o' => model_eq (f_main fs') o'
+  | FAt k o' => match nth_error (f_held fs) k with
+                | Some m => model_eq (mkState (st_heap (f_main fs')) m 0) o'
+                | None => None
+                end
+  | FHold _ => None
+  end.
+Fixpoint fcorr_steps (fs : fstate) (steps : list (fop * fsobs)) : bool :=
+  match steps with
+  | [] => true
+  | (o, ob) :: r =>
+      let '(fs', out) := fstep fs o in
+      match kind_of out, observe (f_main fs'), observe_held fs' with
+      | Some k, Some t, Some hs =>
+          okind_eqb k (s_out (fs_main ob)) && otree_eqb t (s_tree (fs_main ob))
+          && opt_eqb Bool.eqb (fmodel_eq fs fs' o) (s_eq (fs_main ob))
+          && list_eqb opt_otree_eqb hs (fs_held ob)
+          && fcorr_steps fs' r
+      | _, _, _ => false
+      end
+  end.
 Definition check_corr (c : case) : bool :=
   match c with
   | CHist t steps => corr_steps (init_state t) steps
+  | CForest t steps => fcorr_steps (mkF (init_state t) []) steps
   | CCrash => false
   end.
 
@@ -215,6 +272,10 @@ Definition spec_eq (o : op) (ob : sobs) : bool :=
 Definition check_spec (c : case) : bool :=
   match c with
   | CHist _ steps => forallb (fun '(o, ob) => spec_tree (s_tree ob) [] true 0 [] && spec_eq o ob) steps
+  | CForest _ steps =>
+      (* the program keeps the invariant whatever is done to nodes that dropped out of it (those are compared with the
+         model by check_corr, but are not program trees: e.g. the husk of a merged child still lists its former children) *)
+      forallb (fun '(o, ob) => spec_tree (s_tree (fs_main ob)) [] true 0 []) steps
   | CCrash => false
   end.
 
@@ -232,4 +293,19 @@ Fixpoint first_bad (s : state) (steps : list (op * sobs)) (i : nat) : option (na
       if ok then first_bad s' r (S i) else Some (i, kind_of out, observe s', model_eq s' o)
   end.
 Definition debug_case (c : case) :=
-  match c with CHist t steps => first_bad (init_state t) steps O | CCrash => None end.
+  match c with CHist t steps => first_bad (init_state t) steps O | _ => None end.
+Fixpoint ffirst_bad (fs : fstate) (steps : list (fop * fsobs)) (i : nat) :=
+  match steps with
+  | [] => None
+  | (o, ob) :: r =>
+      let '(fs', out) := fstep fs o in
+      let ok := match kind_of out, observe (f_main fs'), observe_held fs' with
+                | Some k, Some t, Some hs => okind_eqb k (s_out (fs_main ob)) && otree_eqb t (s_tree (fs_main ob))
+                                             && opt_eqb Bool.eqb (fmodel_eq fs fs' o) (s_eq (fs_main ob))
+                                             && list_eqb opt_otree_eqb hs (fs_held ob)
+                | _, _, _ => false
+                end in
+      if ok then ffirst_bad fs' r (S i) else Some (i, kind_of out, observe (f_main fs'), observe_held fs', fmodel_eq fs fs' o)
+  end.
+Definition fdebug_case (c : case) :=
+  match c with CForest t steps => ffirst_bad (mkF (init_state t) []) steps O | _ => None end.
